@@ -2,6 +2,7 @@ package main
 
 import (
 	"bytes"
+	"fmt"
 	"strings"
 
 	"github.com/keybase/saltpack"
@@ -123,6 +124,16 @@ func (r hResolver) ResolveKeys(identifiers [][]byte) ([]*saltpack.SymmetricKey, 
 		}
 	}
 	return out, nil
+}
+
+// oddResolver: a resolver that knows no identifier and says so in a way the interface allows
+type oddResolver struct{ mode int }
+
+func (r oddResolver) ResolveKeys(identifiers [][]byte) ([]*saltpack.SymmetricKey, error) {
+	if r.mode == 0 {
+		return nil, fmt.Errorf("oddResolver: none of the identifiers is known")
+	}
+	return make([]*saltpack.SymmetricKey, len(identifiers)+1), nil
 }
 
 // recipients "pk:h,pk:v"
